@@ -118,6 +118,27 @@ def legacy_phase(v):
                 "path, or the fault-free database (V3.Entry.v3_fault_ok)",
         "input_distribution": {k: c for k, c in stats["classes"].items() if "/fault/" in k},
     }
+    # a missing object of the plan (any one WAL segment removed, latest restore): the outcome must be an error
+    # unless what is left is still gap-free (oracle v3_plan_ok of C19)
+    gone = {}
+    for m in mism:
+        if m["entry"] != "v3_plan_ok":
+            continue
+        try:
+            code = int(m["model"], 0)
+        except ValueError:
+            code = -1
+        gone.setdefault(code, []).append(m)
+    v.coverage["legacy_path"]["missing_object_jobs"] = sum(c for k, c in stats["classes"].items() if "/removed-" in k and k.endswith("/spec"))
+    for code, ms in sorted(gone.items()):
+        sig = {20: "C10/legacy-trailing-segment-of-non-final-index-lost-undetected",
+               21: "C10/legacy-missing-first-segment-not-detected",
+               22: "C10/legacy-missing-segment-not-detected"}.get(code, "C10/legacy-restore-oracle-%d" % code)
+        v.violation(sig, "legacy (v0.3.x) restore path with one WAL segment of the plan deleted: RestoreV3 does not behave as "
+                         "the property prescribes (oracle v3_plan_ok code %d; 20 = the last segment of a non-final WAL index is "
+                         "missing and the restore succeeds - F8, 21/22 = a gap that is not detected) (%d such cases)" % (code, len(ms)),
+                    {"case_lines": C.case_with_defs(cases, ms[0]["line"]), "oracle_code": code,
+                     "how": "harness v3 -faultonly regenerates the layouts"}, True)
     by = {}
     for m in mism:
         if m["entry"] != "v3_fault_ok":
